@@ -1351,9 +1351,18 @@ impl<'a> LL1Validator {
         let Regex::Concat(concat) = op else {
             unreachable!()
         };
+        // the element behind the left recursive operand (see check_recursive)
         concat
             .operands(cst)
-            .filter(|op| !matches!(op, Regex::Predicate(_)))
+            .filter(|op| {
+                !matches!(
+                    op,
+                    Regex::Predicate(_)
+                        | Regex::NodeRename(_)
+                        | Regex::NodeElision(_)
+                        | Regex::Action(_)
+                )
+            })
             .nth(1)
             .unwrap()
     }
